@@ -73,6 +73,9 @@ fn replay_iter_spans(v: Vec<(char, SimpleSpan)>, eoi: SimpleSpan, sched: &[usize
     let input: I = IterInput::new(v.into_iter(), eoi);
     let (c0, mut cache) = input.begin();
     let mut cursors: Vec<<I as Input>::Cursor> = vec![c0.clone()];
+    // every (start, end) pair a call produced: a later call asks again for the span of an OLDER pair (a capture that is
+    // computed after the parser has looked further ahead and come back)
+    let mut pairs: Vec<(<I as Input>::Cursor, <I as Input>::Cursor)> = Vec::new();
     let mut out = String::new();
     for &k in sched {
         let from = cursors[k % cursors.len()].clone();
@@ -82,12 +85,15 @@ fn replay_iter_spans(v: Vec<(char, SimpleSpan)>, eoi: SimpleSpan, sched: &[usize
         let s1 = unsafe { <I as Input>::span(&mut cache, &from..&cu) };
         let s0 = unsafe { <I as Input>::span(&mut cache, &c0..&cu) };
         let s2 = unsafe { <I as Input>::span(&mut cache, &cu..&cu) };
+        pairs.push((from.clone(), cu.clone()));
+        let old = &pairs[(k * 7 + 3) % pairs.len()];
+        let s3 = unsafe { <I as Input>::span(&mut cache, &old.0..&old.1) };
         use std::fmt::Write as _;
         let tk = match t {
             Some(t) => (t as u32).to_string(),
             None => "-".to_string(),
         };
-        let _ = write!(out, " {}:{}@{}-{}@{}-{}@{}-{}", loc, tk, s1.start, s1.end, s0.start, s0.end, s2.start, s2.end);
+        let _ = write!(out, " {}:{}@{}-{}@{}-{}@{}-{}@{}-{}", loc, tk, s1.start, s1.end, s0.start, s0.end, s2.start, s2.end, s3.start, s3.end);
         cursors.push(cu);
     }
     out
